@@ -145,6 +145,10 @@ def gen_program(rng, names=None):
         out.append(("do", "", marker(), actor()))
         out.append(("do", rng.choice([via(), via(), "zz of actor", "yy.ww of actor me", ".place of actor me"]),
                     rng.choice(["", "me."]) + marker(), actor()))
+        # `do ... from <field> in <source>`: the source of a from clause is resolved in the frame / framer
+        # context only, never under the do's own via inode
+        out.append(("dofrom", rng.choice(["", "box of frame", "bx of framer", "zz", "ba of actor", "me.q"]),
+                    rng.choice(["cfg.", "", "me."]) + marker(), actor()))
         # implicit framer-state needs: go <frame> if elapsed/recurred <cmp> value | goal [+- tol]
         for _ in range(rng.randint(1, 3)):
             out.append(("need", rng.choice(["elapsed", "recurred"]), rng.choice(["value", "goal", "goaltol"]),
@@ -228,6 +232,9 @@ def render(spec, names):
             for r in f["refs"]:
                 if r[0] == "put":
                     L.append("      put 1 into %s%s" % (r[1], rel(r[2])))
+                elif r[0] == "dofrom":
+                    asn = (" as " + names[r[3]]) if r[3] else ""
+                    L.append("      do doer param%s at enter%s from color in %s" % (asn, (" via " + r[1]) if r[1] else "", r[2]))
                 elif r[0] == "need":
                     L.append("      go %s if %s %s" % (nm(r[3][1]), r[1], {"value": ">= 0.5", "goal": ">= goal",
                                                                             "goaltol": "== goal +- 0.1"}[r[2]]))
@@ -252,11 +259,25 @@ def build(text, workdir, tag="p"):
     path = os.path.join(workdir, "%s.flo" % tag)
     with open(path, "w") as f:
         f.write(text)
+    from ioflo.base import acting
     b = building.Builder()
+    trace = {}
+    orig = acting.Act.resolvePath
+
+    def traced(self, ipath, *pa, **kwa):       # observation only: which share/node each call returned
+        r = orig(self, ipath, *pa, **kwa)
+        if isinstance(ipath, str):
+            trace[(id(self), ipath)] = getattr(r, "name", None)
+        return r
+    acting.Act.resolvePath = traced
     try:
-        ok = b.build(fileName=path)
-    except Exception as ex:   # ParseError etc.
-        return False, "%s: %s" % (type(ex).__name__, str(ex)[:300])
+        try:
+            ok = b.build(fileName=path)
+        except Exception as ex:   # ParseError etc.
+            return False, "%s: %s" % (type(ex).__name__, str(ex)[:300])
+    finally:
+        acting.Act.resolvePath = orig
+    b._c13_trace = trace
     return bool(ok), b
 
 
@@ -437,6 +458,8 @@ def put_refs(spec):
                     out[r[1].split(".")[-1]] = (r[1], r[2])
                 elif r[0] == "do":
                     out[r[2].split(".")[-1]] = (r[2], None)
+                elif r[0] == "dofrom":
+                    out["from:" + r[2].rstrip(".").split(".")[-1]] = (r[2], None)
                 elif r[0] == "need":
                     out["need|%s|%d|state" % (f["name"], k)] = ("framer.me.state.%s" % r[1], None)
                     if r[2] != "value":
@@ -485,8 +508,24 @@ def do_destinations(builder):
     return out
 
 
+def from_destinations(builder):
+    """from:<marker> -> [(act, share name)]: the source share each resolved `do ... from` act really obtained
+    from Act.resolvePath (traced during the build)"""
+    out = {}
+    trace = getattr(builder, "_c13_trace", {})
+    for act in all_acts(builder):
+        if isinstance(act.frame, str) or type(act.actor).__name__ != "DoerParam" or not act.prerefs:
+            continue
+        for src in (act.prerefs.get("parms") or {}):
+            got = trace.get((id(act), src))
+            if got is not None:
+                out.setdefault("from:" + src.rstrip(".").split(".")[-1], []).append((act, got))
+    return out
+
+
 def all_destinations(builder, names):
     out = dict(poke_destinations(builder))
+    out.update(from_destinations(builder))
     out.update(do_destinations(builder))
     out.update(need_destinations(builder, names))
     return out
